@@ -3,34 +3,50 @@ import os, shutil
 from . import core, programs, codec_common as cc
 
 
+SPELLINGS = ("plain", "dot", "absolute")
+
+
+def spell(how, d, f):
+    """the path of file `f` of the project directory `d`, spelled plain / with a leading `./` / absolute"""
+    return f if how == 0 else ("./" + f if how == 1 else os.path.join(d, f))
+
+
+def spelling_of(proj):
+    """(run+compile spelling, execute spelling): `proj["spell"]` when given, else derived from the project's name.
+    A bytecode file is the same file however its path is written, so the spelling used for `execute` varies independently of
+    the one `compile` was given (all commands are started in the project directory)."""
+    import zlib
+    if "spell" in proj:
+        return tuple(proj["spell"])
+    k = zlib.crc32(proj["name"].encode()) % 9
+    return k % 3, k // 3
+
+
 def system_level(ctx, binary, projects, limit):
     """run every project both ways: stdout, exit class and loaded instruction streams must agree"""
     base = ctx.mktemp()
     todo = projects[:limit]
     tmo = 8 if ctx.quick() else 20
 
-    import zlib
-
     def one(proj):
         d = programs.materialize(proj, base)
         e0 = proj["entry"]
-        # the entry path is spelled plain / with a leading `./` / absolute, the same way for both commands
-        how = zlib.crc32(proj["name"].encode()) % 3
-        e = e0 if how == 0 else ("./" + e0 if how == 1 else None)
-        if e is None:
-            e = os.path.join(d, e0)
+        how, how_x = spelling_of(proj)
+        e = spell(how, d, e0)
         r1 = programs.run_bin(binary, ["run", e, "-q"], d, {"MSCRIPT_VERIF_DUMP": os.path.join(d, "dump1")}, timeout=tmo)
         d2 = programs.materialize(proj, base)
-        if how == 2:
-            e = os.path.join(d2, e0)
-        c = programs.run_bin(binary, ["compile", e, "--quick"], d2)
+        c = programs.run_bin(binary, ["compile", spell(how, d2, e0), "--quick"], d2)
         r2 = None
+        same_spelling = None
         if r1[0] == 124:
             # a program that does not finish within the time limit cannot be compared: do not wait for it twice more
             r2 = (124, "", "")
         elif c[0] == 0:
-            mmm = e[:-3] + ".mmm"
-            r2 = programs.run_bin(binary, ["execute", mmm], d2, {"MSCRIPT_VERIF_DUMP": os.path.join(d2, "dump2")})
+            mmm = e0[:-3] + ".mmm"
+            r2 = programs.run_bin(binary, ["execute", spell(how_x, d2, mmm)], d2, {"MSCRIPT_VERIF_DUMP": os.path.join(d2, "dump2")})
+            if how_x != how and (programs.exit_class(r2[0]) != programs.exit_class(r1[0]) or not programs.same_output(r1[1], r2[1], proj)):
+                # does the difference come from the spelling of the path alone?
+                same_spelling = programs.run_bin(binary, ["execute", spell(how, d2, mmm)], d2)
         def rd(p):
             try:
                 return programs.parse_dump(open(p, "rb").read())
@@ -42,15 +58,18 @@ def system_level(ctx, binary, projects, limit):
             again = programs.run_bin(binary, ["run", e, "-q"], d)
             if not programs.same_output(r1[1], again[1], None):
                 r2 = (r2[0], r1[1], r2[2])
-        res = (proj, r1, c, r2, rd(os.path.join(d, "dump1")), rd(os.path.join(d2, "dump2")))
+        res = (proj, r1, c, r2, rd(os.path.join(d, "dump1")), rd(os.path.join(d2, "dump2")), same_spelling)
         shutil.rmtree(d, ignore_errors=True)
         shutil.rmtree(d2, ignore_errors=True)
         return res
 
     results = programs.pmap(one, todo)
     n_run = n_both = n_dump = 0
-    for proj, r1, c, r2, d1, d2 in results:
+    n_mixed = 0
+    for proj, r1, c, r2, d1, d2, same_spelling in results:
         n_run += 1
+        how, how_x = spelling_of(proj)
+        n_mixed += how != how_x
         compiled1 = "Interpreter crashed" in r1[2] or r1[0] == 0 or "MSCRIPT INTERPRETER" in r1[2]
         if c[0] != 0:
             # not compilable: `run` must not have produced program behaviour either; outside the quantifier
@@ -58,6 +77,17 @@ def system_level(ctx, binary, projects, limit):
         n_both += 1
         k1, k2 = programs.exit_class(r1[0]), programs.exit_class(r2[0])
         if 'timeout' in (k1, k2):
+            continue
+        if (not programs.same_output(r1[1], r2[1], proj) or k1 != k2) and same_spelling is not None \
+                and programs.exit_class(same_spelling[0]) == k1 and programs.same_output(r1[1], same_spelling[1], proj):
+            ctx.report("execute-path-spelling",
+                       "the bytecode compiled from `%s` executes like `run` when started as `%s` but not as `%s` (exit %s vs %s): %s" % (
+                           spell(how, "<dir>", proj["entry"]), spell(how, "<dir>", proj["entry"][:-3] + ".mmm"),
+                           spell(how_x, "<dir>", proj["entry"][:-3] + ".mmm"), k1, k2, proj["name"]),
+                       {"project": proj, "cwd": "the project directory <dir>", "compile_path": SPELLINGS[how], "execute_path": SPELLINGS[how_x],
+                        "run": {"rc": r1[0], "stdout": r1[1][-2000:], "stderr": r1[2][-1500:]},
+                        "execute": {"rc": r2[0], "stdout": r2[1][-2000:], "stderr": r2[2][-1500:]},
+                        "execute_spelled_like_compile": {"rc": same_spelling[0], "stdout": same_spelling[1][-2000:]}})
             continue
         if not programs.same_output(r1[1], r2[1], proj) or k1 != k2:
             ctx.report("run-vs-execute:" + proj["name"],
@@ -74,6 +104,7 @@ def system_level(ctx, binary, projects, limit):
                     ctx.report("dump-differs:" + proj["name"], "loaded instruction streams of %s differ between run and execute (%s)" % (f, proj["name"]),
                                {"project": proj, "file": f,
                                 "diff": [(n, d1[f].get(n), d2[f].get(n)) for n in set(d1[f]) | set(d2[f]) if d1[f].get(n) != d2[f].get(n)][:3]})
+    ctx.cov["programs_executed_under_another_path_spelling"] = n_mixed
     return n_run, n_both, n_dump
 
 
@@ -106,6 +137,27 @@ def failing_and_colliding_programs():
         "class Q {\n  v: int\n  constructor(self, v: int) {\n    self.v = v\n  }\n  fn up(self) -> Self {\n    return Self(self.v + 5)\n  }\n}\nq = Q(1)\nprint (q.up()).v\n"}})
     out.append({"name": "collide:same-function-name-in-two-scopes", "entry": "main.ms", "files": {"main.ms":
         "a = fn() -> int {\n  h = fn() -> int { return 1 }\n  return h()\n}\nb = fn() -> int {\n  h = fn() -> int { return 2 }\n  return h()\n}\nprint a()\nprint b()\n"}})
+    return out
+
+
+def path_spelling_matrix():
+    """programs whose bytecode refers to its own file (a method building its own class, classes and functions of one name in
+    two scopes, a failing function, two modules sharing state) under every pair (compile spelling, execute spelling)"""
+    base = [p for p in failing_and_colliding_programs() if p["name"].startswith(("self:", "collide:", "fail:assert:function", "fail:div-zero:module"))]
+    base.append({"name": "modules:own-class-and-imported-class", "entry": "main.ms", "files": {
+        "main.ms": "import lib\nimport bump from lib\nclass P {\n  v: int\n  constructor(self, v: int) {\n    self.v = v\n  }\n  fn twice(self) -> Self {\n    return Self(self.v * 2)\n  }\n}\n"
+                   "print \"main\"\nbump()\nprint lib.count()\nb = lib.Box(4)\nprint (b.dup()).v\nprint ((P(3)).twice()).v\n",
+        "lib.ms": "print \"lib init\"\nn = 0\nexport bump: fn() = fn() {\n  modify n = n + 1\n}\nexport count: fn() -> int = fn() -> int {\n  return n\n}\n"
+                  "export class Box {\n  v: int\n  constructor(self, v: int) {\n    self.v = v\n  }\n  fn dup(self) -> Self {\n    return Self(self.v + 1)\n  }\n}\n"}})
+    out = []
+    for p in base:
+        for how in range(3):
+            for how_x in range(3):
+                if how != how_x:
+                    q = dict(p)
+                    q["name"] = "%s [compile %s, execute %s]" % (p["name"], SPELLINGS[how], SPELLINGS[how_x])
+                    q["spell"] = (how, how_x)
+                    out.append(q)
     return out
 
 
@@ -196,8 +248,9 @@ def run(ctx):
     ctx.rng.shuffle(projects)
     # programs that END BADLY must end the same way under both commands (failure kinds x where the failure happens);
     # and shapes whose compiled names collide inside one file (two classes of one name in different scopes)
+    matrix = path_spelling_matrix()
     projects = failing_and_colliding_programs() + projects
-    n_run, n_both, n_dump = system_level(ctx, binary, projects, 120 if ctx.quick() else len(projects))
+    n_run, n_both, n_dump = system_level(ctx, binary, matrix + projects, len(matrix) + (120 if ctx.quick() else len(projects)))
     ctx.cov["programs_recompiled_over_existing_file"] = recompile_over_existing(ctx, binary, projects, 25 if ctx.quick() else 150)
     ctx.cov["programs_run_both_ways"] = n_both
     ctx.cov["programs_tried"] = n_run
